@@ -10,6 +10,43 @@ CHECKS = {
   'technique': 'Kani function contracts (proof_for_contract + stub_verified), loop-free full-domain harnesses',
  },
 }
+CHECKS.update({
+ 'C01': {
+  'text': 'Partial proof. Decided for all inputs/histories: (a) the representation invariant "every stored location (current, breakpoint, every stack frame, every loop, every function definition) names an existing line, both stacks <= 32" is preserved by every Program mutator under contract (Verus), which discharges the only unwrap on a line lookup (tokens_for_line), the expect()s of the function-call path and the panic! in rewind_before_token as preconditions; (b) arithmetic safety of every function under contract (token cursor increments, ProgramLines::after for every u64, Rng::random for every seed - Kani, complete); (c) error values carry a location (populate_error_location). Not decided: panic-freedom of the tokenizer, DATA parser and statement/expression evaluators, native stack depth.',
+  'note': 'Proof-level for the listed functions only; the evidence lists functions under contract, assumed callees (external_body) and undecided clauses. Trusted: vstd, assumed std specs (BTreeSet first/range/iter, Option::copied), derived Clone/PartialEq/Default of Token/Symbol/ProgramLocation are structural.',
+  'technique': 'Verus inductive invariant over Program mutators (verbatim extraction) + Kani function contract on Rng',
+ },
+ 'C03': {
+  'text': 'Partial proof of the anchored mechanisms, each against a spec function: line sequencing = least stored key above the current line (next_line over ProgramLines::after), RUN starts at the least key, GOSUB pushes / RETURN pops exactly the return location on one stack capped at 32, RETURN on an empty stack is RETURN WITHOUT GOSUB, error-line attribution (populate_error_location: existing location kept; DATA TYPE MISMATCH points at the DATA cursor; otherwise previous token of the current line), start_loop pushes the loop for its variable at the current location. The differential claim itself (statement dispatch, IF/ELSE, FOR arithmetic in doubles) is not decided by this family here.',
+  'note': 'remove_loop_with_name is an assumed contract in Verus (iterator adapters). statement.rs/expression.rs are outside both verifiers.',
+  'technique': 'Verus contracts on Program/ProgramLines control-flow primitives',
+ },
+ 'C07': {
+  'text': 'Proof at the level of the program state: lemma_cont_undoes_break shows, from the contracts of break_at_current_location and continue_from_breakpoint alone, that CONT after a break at any numbered location restores location, stack, loops, functions, DATA cursor and code exactly; immediate lines keep the stack iff a breakpoint is pending; GOTO/RETURN clear the breakpoint; a second CONT is CAN\'T CONTINUE. Holds for every well-formed state, hence every program and every break point.',
+  'note': 'Statement dispatch (that STOP and host break reach break_at_current_location, that immediate statements go through set_and_goto_immediate_line) is assumed. The frame-restoration of a failing user-function call is in unit fn_call_frames when built.',
+  'technique': 'Verus contracts + exec-form lemmas over the contracts of Program',
+ },
+ 'C09': {
+  'text': 'Partial proof: every token-cursor primitive (peek/next/accept/try_next/expect/next_unwrapped/discard/rewind) stays on the current line, moves the cursor by at most one (discard: to the line end, rewind: strictly backwards with a decreases measure) and changes nothing else - the measure that makes each scan over a line a single pass; next_line moves to the successor line or reports the end. The one-statement-per-call structure of run_next_statement is in unit interp_api when built.',
+  'note': 'Loops inside statement.rs (IF false-branch scan, DEF body skip) are read, not proved.',
+  'technique': 'Verus contracts with frame conditions on the cursor primitives; loop decreases',
+ },
+ 'C10': {
+  'text': 'Proof (program side): run_from_first_numbered_line establishes, from the stored lines alone and for any prior state, breakpoint = none, DATA cursor = none, no functions, empty stack, no loops, location = least stored line (or immediate for an empty program); lemma_run_state_depends_on_code_only states it relationally for two arbitrary histories. Interpreter side (fresh Variables/Arrays, pending reply) is in maybe_process_command, outside Verus.',
+  'note': 'The known pending-reply leak (Interpreter.input not cleared by RUN) is outside the decided clauses.',
+  'technique': 'Verus postcondition + relational exec-form lemma',
+ },
+ 'C11': {
+  'text': 'Proof: set_numbered_line, from ANY state with a well-formed store, yields breakpoint none, DATA cursor none, no functions, empty stack, no loops, immediate location, and re-establishes the full invariant from the new store alone (so no stored location survives an edit); lemmas then derive CONT => CAN\'T CONTINUE, RETURN => RETURN WITHOUT GOSUB, FN lookup => none, loop lookup => none, from the callee contracts. A history-quantified claim reduced to one postcondition.',
+  'note': 'NEXT WITHOUT FOR additionally needs end_loop (f64 arithmetic, outside Verus) to return the error when remove_loop_with_name yields None - read, not proved. Tokenize-before-store in evaluate_impl is assumed.',
+  'technique': 'Verus postcondition of set_numbered_line + exec-form lemmas',
+ },
+ 'C16': {
+  'text': 'Proof for the control stacks: stack <= 32, loops <= 32 and "no two open loops for one variable" are part of the invariant preserved by every Program mutator; gosub/push_function_call at the cap return OUT OF MEMORY (STACK OVERFLOW) changing nothing; start_loop removes the same-named loop first, so re-entering a FOR via GOTO does not accumulate. Array caps and name-suffix typing are in the Kani units arrays/operators when built.',
+  'note': 'remove_loop_with_name is assumed in Verus; end_loop (re-push of the removed loop) is read, not proved.',
+  'technique': 'Verus invariant (caps) over Program mutators',
+ },
+})
 NOT_APPLICABLE = {
  'C13': 'token ranges are assembled in Tokenizer::next/chomp_next_token: Verus cannot type Tokenizer<T: AsRef<str>> and str byte reasoning, CBMC does not finish symbolic execution of next() even on 6-byte lines (DESIGN §10); no contract within reach decides it',
  'C14': 'every anchored mechanism is core::fmt Display, f64 printing/parsing and the full tokenizer; neither verifier models them, a contract could only restate the round trip as an axiom',
